@@ -73,15 +73,14 @@ def check(ctx, what, got, exp, inputs_scale=1.0, dtype_sig=None):
         return False
     g, e = np.asarray(got[1]), np.asarray(exp[1])
     exact = e.dtype.kind in "iub"
-    if not U.same_values(g, e, exact, inputs_scale):
+    rtol = 2e-4 if e.dtype in (np.float32, np.complex64) else 1e-9
+    if not U.same_values(g, e, exact, inputs_scale, rtol):
         ctx.fail(f"{what} differs from NumPy", observed=g.tolist(), expected=e.tolist())
         return False
     if g.dtype != e.dtype:
-        sig = None
-        if dtype_sig and str(g.dtype) == "int64" and str(e.dtype) == "int32":
-            sig = "contraction:int32-operands:result-int64"
-            ctx.branch("known: int32 contraction promoted to int64")
-        ctx.fail(f"{what}: dtype {g.dtype} but NumPy gives {e.dtype}", sig=sig, observed=str(g.dtype), expected=str(e.dtype))
+        ctx.fail(f"{what}: dtype {g.dtype} but NumPy gives {e.dtype}", observed=str(g.dtype), expected=str(e.dtype))
+    if e.dtype not in (np.int64, np.float64):
+        ctx.branch("result dtype " + str(e.dtype))
     return True
 
 
@@ -366,13 +365,17 @@ CASES = {k: U.pure_sources(v) for k, v in CASES.items()}
 
 def _rand(rng, shape, dtype):
     n = U.prod_shape(shape)
+    if dtype == "bool":
+        return np.array([rng.random() < 0.5 for _ in range(n)], dtype=bool).reshape(shape)
+    if dtype.startswith("uint"):
+        return np.array([rng.randint(0, 5) for _ in range(n)], dtype=dtype).reshape(shape)
     if dtype.startswith("int"):
         return np.array([rng.randint(-3, 3) for _ in range(n)], dtype=dtype).reshape(shape)
     return np.array([rng.choice([rng.randint(-3, 3) * 0.5, round(rng.uniform(-4, 4), 3)]) for _ in range(n)], dtype=dtype).reshape(shape)
 
 
 def _dtype(rng):
-    return rng.choice(["int64", "int64", "float64", "float64", "int32"])
+    return rng.choice(["int64", "int64", "float64", "float64", "int32", "int32", "uint8", "int16", "float32", "bool"])
 
 
 def gen_tensordot(ctx, n):
@@ -430,6 +433,8 @@ def gen_prod(ctx, n):
             sa = ([k] if na == 1 else bdims(na - 2) + [rng.randint(1, 3), k])
             sb = ([k] if nb == 1 else bdims(nb - 2) + [k, rng.randint(1, 3)])
         dt = _dtype(rng)
+        if fn == "vdot" and dt == "bool":
+            dt = "int16"        # vdot conjugates its first operand; np.conj(bool) is int8 in dask's path (not examined here)
         yield "prod", {"fn": fn, "a": enc(_rand(rng, sa, dt)), "b": enc(_rand(rng, sb, dt)),
                        "ca": [list(c) for c in U.rand_chunks(rng, sa)], "cb": [list(c) for c in U.rand_chunks(rng, sb)]}
 
@@ -445,7 +450,7 @@ def gen_einsum(ctx, n):
         ins = sub.split("->")[0].split(",")
         dims = {}
         ops, chunks = [], []
-        dt = rng.choice(["int64", "float64"])
+        dt = rng.choice(["int64", "float64", "int64", "float64", "int32", "uint8", "float32"])
         for term in ins:
             shape = [dims.setdefault(ch, rng.randint(1, 4)) for ch in term]
             ops.append(enc(_rand(rng, shape, dt)))
